@@ -594,17 +594,17 @@ class SequenceEncoder(AbstractItemEncoder):
             # bare Python value + ASN.1 schema
             for idx, namedType in enumerate(asn1Spec.componentType.namedTypes):
 
+                if namedType.isOptional and namedType.name not in value:
+                    if LOG:
+                        LOG('not encoding OPTIONAL component %r' % (namedType,))
+                    continue
+
                 try:
                     component = value[namedType.name]
 
                 except KeyError:
                     raise error.PyAsn1Error('Component name "%s" not found in %r' % (
                         namedType.name, value))
-
-                if namedType.isOptional and namedType.name not in value:
-                    if LOG:
-                        LOG('not encoding OPTIONAL component %r' % (namedType,))
-                    continue
 
                 if namedType.isDefaulted and component == namedType.asn1Object:
                     if LOG:
